@@ -332,6 +332,11 @@ func archive(workerID string, seed *models.Item) {
 						io.Copy(io.Discard, resp.Body)
 						resp.Body.Close()
 
+						// The response of this attempt is archived too: wait for its WARC write like for the final attempt
+						if !config.Get().WARCWriteAsync {
+							<-feedbackChan
+						}
+
 						verifhook.Obs("fetch.retry.sleep", seed, item, retry, retrySleepTime)
 						time.Sleep(retrySleepTime)
 						continue
@@ -343,6 +348,11 @@ func archive(workerID string, seed *models.Item) {
 						// Consume body, needed to avoid leaking RAM & storage
 						io.Copy(io.Discard, resp.Body)
 						resp.Body.Close()
+
+						// The response of this attempt is archived too: wait for its WARC write before giving the item back
+						if !config.Get().WARCWriteAsync {
+							<-feedbackChan
+						}
 
 						return
 					}
